@@ -9,10 +9,17 @@ pub trait StorageData: Sized {
     spec fn view(&self) -> Seq<u8>;
     // back-end specific representation invariant (e.g. memory copy == file content)
     spec fn inv(&self) -> bool;
+    // file-backed back-ends: what reopening after a crash at this instant restores (C01);
+    // flush() is the commit point.  The in-memory back-end has no crash semantics (persistent() == false).
+    spec fn persistent(&self) -> bool;
+    spec fn recovered(&self) -> Seq<u8>;
 
     fn flush(&mut self) -> (r: Result<(), DbError>)
         requires old(self).inv(),
-        ensures final(self).view() == old(self).view(), r is Ok ==> final(self).inv();
+        ensures final(self).view() == old(self).view(), r is Ok ==> final(self).inv(),
+            // commit point: after a successful flush a crash restores exactly the current content
+            final(self).persistent() == old(self).persistent(),
+            (r is Ok && old(self).persistent()) ==> final(self).recovered() == final(self).view();
 
     fn len(&self) -> (r: u64)
         requires self.inv(),
@@ -24,11 +31,15 @@ pub trait StorageData: Sized {
 
     fn resize(&mut self, new_len: u64) -> (r: Result<(), DbError>)
         requires old(self).inv(),
-        ensures r is Ok ==> final(self).inv() && final(self).view() == set_len_spec(old(self).view(), new_len as int);
+        ensures r is Ok ==> final(self).inv() && final(self).view() == set_len_spec(old(self).view(), new_len as int),
+            final(self).persistent() == old(self).persistent(),
+            old(self).persistent() ==> final(self).recovered() == old(self).recovered();
 
     fn write(&mut self, pos: u64, bytes: &[u8]) -> (r: Result<(), DbError>)
         requires old(self).inv(),
             pos + bytes@.len() <= old(self).view().len() || pos == old(self).view().len(),
             pos + bytes@.len() <= u64::MAX,
-        ensures r is Ok ==> final(self).inv() && final(self).view() == write_at(old(self).view(), pos as int, bytes@);
+        ensures r is Ok ==> final(self).inv() && final(self).view() == write_at(old(self).view(), pos as int, bytes@),
+            final(self).persistent() == old(self).persistent(),
+            old(self).persistent() ==> final(self).recovered() == old(self).recovered();
 }
